@@ -53,7 +53,8 @@ META = dict(
               "correspondence of the whole model with Runtime.Eval on exhaustive and random programs with probes and scope dumps",
     level_text=("Proof (about functions of Model/Eval.lean that runFunction / runBuiltin call; unfolding equations runFunction_uses_buildFrame, "
                 "runBuiltin_uses, addSuperClasses_order, superLoop_order): lookup_nearest, assign_nearest_or_local (+ one scope touched, heap "
-                "untouched), let_local, inner_not_visible_outside; call frames on buildFrame: call_fresh_locals, closure_sees_definition_scope, "
+                "untouched), let_local, inner_not_visible_outside, block_scope_under_current (newChild: parent = current scope, reused by name, not "
+                "on the parent's chain), frame_invisible_from_existing, scopes_wf_preserved; call frames on buildFrame: call_fresh_locals, closure_sees_definition_scope, "
                 "call_does_not_write_enclosing_frames (every outcome; hypothesis = the defaults of THIS parameter list preserve the frame "
                 "invariant; call_frames_noDefaults needs none; both instantiated on the real eval in examples), "
                 "args_missing_default_extra_ignored; read_after_write_path on setValue / getValue themselves for any nesting (containerWalk "
@@ -65,14 +66,16 @@ META = dict(
                 "new_has_all_template_props (string keys of all templates reachable through super lists, cyclic templates cut as f42b440 does; "
                 "own non-function property wins), method_this, init_once_with_args, init_once_with_args_and_supers, init_reads_super, "
                 "addSuperClasses_cycle."),
-    level_note=("Not proved: that block scopes (newChild) hang under the current scope and are reused by name, and the invariant "
-                "parent index < own index that would discharge `t not on the chain` in inner_not_visible_outside (wiring tested only); that "
-                "eval never touches an unreferenced root scope (so the default-evaluation hypothesis of the frame theorems is discharged per "
+    level_note=("Not proved: that the well-formedness of the scope table (ScopesWF: parent index < own index, children point back) is "
+                "preserved by the evaluator as a whole — it is proved for each scope constructor (initial table, new root, newChild, variable "
+                "writes), which are the only ways the model changes the table; that eval never touches an unreferenced root scope (so the default-evaluation hypothesis of the frame theorems is discharged per "
                 "example, not in general); inherited VALUES and later-super-wins only per copy step; bindParamNode propagates a setValue error "
                 "where Go drops it (unreachable for parser-made names). Hypotheses: Float == reflexive on integer keys (Lean's Float is "
                 "opaque); object theorems are about string keys, templates other than the fresh object, list slot 0 = nil slice; no "
                 "parameter named this/super for the this/super value theorems; slices with len <= capacity; paths that do not pass through "
-                "the cell they write. Outside the model (not compared): mutex blocks, f()() / o.m().k chains after a call, "
+                "the cell they write. Calls of a call result f()(x): known finding call-result-not-callable (calls after the first funccall of "
+                "an identifier are dropped); the model runs the as-is program (kf=) and the let-desugaring (spec=); candidate repair "
+                "fixes/C05-call-of-call-result.patch. Outside the model (not compared): mutex blocks, "
                 "stringified mixed-key maps / functions / non-integral floats."),
 )
 
